@@ -609,6 +609,10 @@ func GenContextWorld(ch *Choices, thorough bool) *IntegWorld {
 			// error), the context is still taken down at shutdown
 			w.Plans[execID("ctx:"+cs.Name, "before", ch.Choose(cs.NBefore, "ctx-before-which"), "")] = &ExecPlan{Exit: genExit(ch)}
 		}
+		if cs.NAfter > 0 && ch.Bool(1, 8, "ctx-after-fails") {
+			// a failing after hook is only logged: the other tasks of the context go on as usual
+			w.Plans[execID("ctx:"+cs.Name, "after", ch.Choose(cs.NAfter, "ctx-after-which"), "")] = &ExecPlan{Exit: genExit(ch)}
+		}
 		for k := 0; k < cs.NDown; k++ {
 			if ch.Bool(1, 5, "down-fails") {
 				// a failing clean-up command must not keep the other contexts from being taken down
